@@ -24,8 +24,9 @@ func cfgOnePerMsg(members int, joiner bool) Cfg {
 }
 
 // Sizes below were measured on this machine (16 workers, other jobs running): quick explores
-// about 4.6 M states in 45-85 s (B9, the snapshot/compaction box, is 1.24 M of them and closes
-// in 13-21 s), thorough about 55 M states in 12-16 min. Every box stops at its share of the
+// about 3.7 M states in 40-80 s (B9, the snapshot/compaction box, is 0.32 M of them and closes
+// in 4-9 s), thorough 36 M states in 17 min at load average 60+ (more when idle; B9, B9b, B9c
+// are 1.24 M + 4.2 M + 1.6 M states and close in 22 + 82 + 39 s). Every box stops at its share of the
 // internal time budget (100 s quick, 17 min thorough) and reports the bound it completed.
 func makeBoxes(tier string) []*Box {
 	thorough := tier == "thorough"
@@ -45,7 +46,7 @@ func makeBoxes(tier string) []*Box {
 		Depth: pick(10, 12), Kinds: kinds(evCampaign, evPropose), Share: pick(14, 60)})
 	add(&Box{ID: "A2", Mode: "A", What: "same with PreVote+CheckQuorum: pre-vote rounds, leases and their expiry, quorum checks on leader ticks",
 		Cfg: cfgPVCQ(3, false), Bud: Budget{MaxTerm: 3, Proposals: 1, Drops: 1, Heartbeats: 2, Expires: 2},
-		Depth: pick(9, 10), Kinds: kinds(evCampaign, evPropose, evHeartbeat, evExpire), Share: pick(8, 35)})
+		Depth: pick(9, 10), Kinds: kinds(evCampaign, evPropose, evHeartbeat, evExpire), Share: pick(10, 35)})
 
 	// ---- Box B: deep runs, FIFO delivery by default, bounded number of deviations
 	crashy := kinds(evCampaign, evPropose, evHeartbeat, evCrash, evRestart)
@@ -62,7 +63,7 @@ func makeBoxes(tier string) []*Box {
 	}
 	add(&Box{ID: "B3", Mode: "B", What: "log compaction at the applied index and snapshot transfer to lagging / restarted followers",
 		Cfg: all3, Bud: Budget{MaxTerm: 3, Proposals: 1, Drops: 9, Dups: 9, Crashes: 1, Compacts: 1},
-		Depth: 400, MaxDev: pick(1, 2), Kinds: kinds(evCampaign, evPropose, evCrash, evRestart, evCompact), Share: pick(12, 100)})
+		Depth: 400, MaxDev: pick(1, 2), Kinds: kinds(evCampaign, evPropose, evCrash, evRestart, evCompact), Share: pick(16, 100)})
 	// ---- B9: snapshots and log compaction on every member, stale snapshots.
 	// The alphabet: compact(n) on leaders and followers (application snapshot at the applied
 	// index + Storage.Compact, twice per run, so that a follower can install a snapshot, move
@@ -77,12 +78,16 @@ func makeBoxes(tier string) []*Box {
 	// that has meanwhile compacted beyond it (crash(3) campaign(1) .. compact(1) restart(3)
 	// heartbeat(1) .. MsgSnap(4) duplicated+delayed .. propose .. compact(3) release ..) has
 	// one deviation, one proposal, two compactions, one crash and one heartbeat: these are the
-	// quick budgets. Coverage counters: compactions, compactions_on_non_leaders,
-	// msgsnap_deliveries, stale_msgsnap_* (see flagNames).
+	// quick budgets. With one election per run (term <= 2) the three choices of leader give
+	// the same runs up to a renaming of the members (ids only decide the order in which a node
+	// emits its messages), so the quick tier lets node 1 campaign only - a stated bound, a third
+	// of the states (0.32 M instead of 1.24 M), which keeps the box inside its time slice on a
+	// busy machine; thorough explores all three. Coverage counters: compactions,
+	// compactions_on_non_leaders, msgsnap_deliveries, stale_msgsnap_* (see flagNames).
 	snapKinds := kinds(evCampaign, evPropose, evHeartbeat, evCrash, evRestart, evCompact)
 	add(&Box{ID: "B9", Mode: "B", What: "snapshots and compaction on leaders and followers; MsgSnap (and every other message) delayed or duplicated-and-delayed past later proposals, compactions and restarts of the receiver",
 		Cfg: all3, Bud: Budget{MaxTerm: 2, Proposals: 1, Dups: 1, Delays: 1, Crashes: 1, Heartbeats: 1, Compacts: 2},
-		Depth: 400, MaxDev: 1, Kinds: snapKinds, Devs: kinds(evDelay, evDupDelay), LeaderPropose: true, Share: pick(30, 60)})
+		Depth: 400, MaxDev: 1, Kinds: snapKinds, Devs: kinds(evDelay, evDupDelay), LeaderPropose: true, CampaignAt: uint8(pick(1, 0)), Share: pick(20, 60)})
 	if thorough {
 		add(&Box{ID: "B9b", Mode: "B", What: "as B9 with two proposals (snapshot, progress, compaction, more progress)",
 			Cfg: all3, Bud: Budget{MaxTerm: 2, Proposals: 2, Dups: 1, Delays: 1, Crashes: 1, Heartbeats: 1, Compacts: 2},
